@@ -20,6 +20,8 @@ TStep ==
          \* checked for inputs up to 40 000 cells; beyond that validity and canonical form)
          /\ (IF e.big = 1 THEN ScriptValid(e.enew, e.lhs, e.rhs) ELSE ScriptOK(e.enew, e.lhs, e.rhs))
          /\ e.ectx = e.enew /\ e.euni = e.enew        \* ... and is not disturbed
+         \* another order of the same calls on a fresh Diff of the same inputs
+         /\ PipeOK(e.lhs, e.rhs, e.enew, e.cnew, e.pipe, 1)
 
 TSkip == l <= N /\ ~ENABLED TStep /\ Reject(l) /\ l' = l + 1
 TNext == TStep \/ TSkip
